@@ -127,6 +127,7 @@ Section Frames.
   (* does encode_v2 reject a serialized payload larger than max_frame_length BEFORE compressing?
      (regenerated from framing.rs by the translator) *)
   Variable v2_checks_serialized : bool.
+  Variable v2_checks_frame : bool.         (* the frame content (flags + payload) is checked against the limit *)
 
   Definition len (l : list N) : N := N.of_nat (length l).
 
@@ -149,7 +150,7 @@ Section Frames.
         if N.ltb (len z) (len s) then (z, if method_lz4 c then 1 else 0) else (s, 0)
       else (s, 0) in
     let n := 1 + len payload in
-    if N.ltb (max_frame c) n then FErr (ETooLarge n (max_frame c))
+    if v2_checks_frame && N.ltb (max_frame c) n then FErr (ETooLarge n (max_frame c))
     else if N.leb W32 n then FErr (ETooLarge n (max_frame c))
     else FOk (be32 n ++ flags :: payload).
 
@@ -176,3 +177,58 @@ Section Frames.
          if N.ltb (len rest) n then FErr EInvalid
          else FOk (firstn (N.to_nat n) rest, skipn (N.to_nat n) rest).
 End Frames.
+
+(* ---------------------------------------------------------------- received sparse vectors *)
+(* tensor_chain/src/message_validation.rs EmbeddingValidator::validate on a SparseVector as it comes out of
+   the deserialiser (derived Deserialize: dimension, positions and values are three independent fields), and
+   the consumers that index `values` by the index of a position (sparse_vector.rs get / dot / to_dense). *)
+Record rsv := RSV { rdim : N; rpos : list N; rvals : list N }.       (* values as f32 bit patterns *)
+
+Definition f32_exp (b : N) : N := (b / 8388608) mod 256.
+Definition f32_man (b : N) : N := b mod 8388608.
+Definition f32_is_nan (b : N) : bool := N.eqb (f32_exp b) 255 && negb (N.eqb (f32_man b) 0).
+Definition f32_is_inf (b : N) : bool := N.eqb (f32_exp b) 255 && N.eqb (f32_man b) 0.
+
+Fixpoint strictly_sorted (l : list N) : bool :=
+  match l with
+  | a :: ((b :: _) as r) => N.ltb a b && strictly_sorted r
+  | _ => true
+  end.
+
+(* which of the checks the source performs (regenerated): lengths equal, every position < dimension,
+   positions strictly ascending *)
+Record vchecks := VC { vc_lens : bool; vc_bounds_all : bool; vc_sorted : bool }.
+
+(* mag_ok: outcome of the floating-point magnitude test (can only refuse) *)
+Definition validate_rsv (k : vchecks) (max_dim : N) (mag_ok : bool) (v : rsv) : bool :=
+  negb (N.eqb (rdim v) 0) && N.leb (rdim v) max_dim
+  && (negb (vc_lens k) || Nat.eqb (length (rpos v)) (length (rvals v)))
+  && negb (existsb f32_is_nan (rvals v)) && negb (existsb f32_is_inf (rvals v))
+  && mag_ok
+  && (if vc_bounds_all k then forallb (fun p => N.ltb p (rdim v)) (rpos v)
+      else forallb (fun p => N.ltb p (rdim v)) (tl (rpos v)))
+  && (negb (vc_sorted k) || strictly_sorted (rpos v)).
+
+(* the consumers, with every index access made explicit: None = the Rust code would panic *)
+Fixpoint set_nth_opt (l : list N) (i : nat) (x : N) : option (list N) :=
+  match l, i with
+  | [], _ => None
+  | _ :: t, O => Some (x :: t)
+  | h :: t, S j => option_map (cons h) (set_nth_opt t j x)
+  end.
+(* to_dense: dense[pos] = val for the zipped pairs *)
+Fixpoint to_dense_chk (pairs : list (N * N)) (acc : list N) : option (list N) :=
+  match pairs with
+  | [] => Some acc
+  | (p, x) :: r => match set_nth_opt acc (N.to_nat p) x with Some acc' => to_dense_chk r acc' | None => None end
+  end.
+Definition rsv_to_dense (v : rsv) : option (list N) :=
+  to_dense_chk (combine (rpos v) (rvals v)) (repeat 0 (N.to_nat (rdim v))).
+(* get: position found at index i of positions -> values[i] *)
+Fixpoint find_idx (l : list N) (x : N) (i : nat) : option nat :=
+  match l with [] => None | y :: r => if N.eqb y x then Some i else find_idx r x (S i) end.
+Definition rsv_get (v : rsv) (index : N) : option N :=
+  match find_idx (rpos v) index 0 with
+  | None => Some 0
+  | Some i => nth_error (rvals v) i
+  end.
